@@ -131,7 +131,7 @@ def _fn_mats(fns, ppi):
     return [matref.fn_matrix(fn, ppi) for fn in fns] if fns else []
 
 
-def evaluate(root, cfg):
+def evaluate(root, cfg, css=None):
     """list of rendered instances in document order:
     {"id", "tag", "chain": [(tag, id) of ancestors incl. use sites], "ctm", "curves": [(letter, curve in user space)], "vp", "node",
      "features": set(), "amp", "terr", "metric"}"""
@@ -146,9 +146,15 @@ def evaluate(root, cfg):
     out = []
     ppi = cfg.ppi
 
-    def walk(n, fr, vp, chain, feats, depth):
+    rules = root.get("rules", [])
+
+    def walk(n, fr, vp, chain, feats, depth, env=None, vpctm=(1.0, IDENT)):
         t = n["tag"]
-        if n.get("attrs", {}).get("display") == "none":
+        if css is not None:
+            env = env.child(n, rules)
+            if env.display == "none":
+                return
+        elif n.get("attrs", {}).get("display") == "none":
             return
         own = _fn_mats(n.get("tf"), ppi)
         here = chain + [(t, n.get("id"))]
@@ -182,15 +188,17 @@ def evaluate(root, cfg):
             elif n.get("vb") is not None:
                 f2.add("root-viewbox")
             fr2 = fr.step(own + [vt], _metric(g))
+            # for non-scaling strokes: (product of the determinants of the enclosing viewBox transforms, CTM at the nearest svg with a viewBox)
+            vp2 = (vpctm[0] * (vt[0] * vt[3] - vt[1] * vt[2]), fr2.ctm) if n.get("vb") is not None else vpctm
             for c in n.get("children", []):
-                walk(c, fr2, inner_vp, here, f2, depth + 1)
+                walk(c, fr2, inner_vp, here, f2, depth + 1, env, vp2)
             return
         if t == "defs":
             return
         if t == "g":
             fr2 = fr.step(own)
             for c in n.get("children", []):
-                walk(c, fr2, vp, here, feats, depth + 1)
+                walk(c, fr2, vp, here, feats, depth + 1, env, vpctm)
             return
         if t == "use":
             g = n.get("geom", {})
@@ -200,7 +208,7 @@ def evaluate(root, cfg):
             if target is not None and depth < 60:
                 f2 = set(feats)
                 f2.add("via-use")
-                walk(target, fr.step(own + [(1.0, 0.0, 0.0, 1.0, tx, ty)], _metric(g)), vp, here, f2, depth + 1)
+                walk(target, fr.step(own + [(1.0, 0.0, 0.0, 1.0, tx, ty)], _metric(g)), vp, here, f2, depth + 1, env, vpctm)
             return
         if t in ("rect", "circle", "ellipse", "line", "polyline", "polygon", "path"):
             curves = shape_curves(n, vp, ppi)
@@ -213,13 +221,13 @@ def evaluate(root, cfg):
                     f2.add("percent-" + AXIS[k])
             opmag = sum(abs(resolve(l, AXIS[k], vp, ppi)) for k, l in n.get("geom", {}).items())
             out.append({"id": n["id"], "tag": t, "chain": here, "ctm": fr2.ctm, "curves": curves, "vp": vp, "node": n, "features": f2,
-                        "amp": fr2.amp, "terr": fr2.terr, "metric": fr2.metric, "opmag": opmag})
+                        "amp": fr2.amp, "terr": fr2.terr, "metric": fr2.metric, "opmag": opmag, "env": env, "vpctm": vpctm})
 
     vb = root.get("vb")
     w0 = cfg.width if cfg.width is not None else (vb[2] if vb else 1000.0)
     h0 = cfg.height if cfg.height is not None else (vb[3] if vb else 1000.0)
     fr0 = Frame().step(_fn_mats(cfg.transform, ppi), bool(cfg.metric))
-    walk(root, fr0, (w0, h0), [], set(), 0)
+    walk(root, fr0, (w0, h0), [], set(), 0, css, (1.0, IDENT))
     return out
 
 
